@@ -44,6 +44,10 @@ D == CayleyD(P, Qd)
 CayleyProper == MatMul(Transpose(N), N) = MatScale(D*D, I3) /\ Det(N) = D*D*D
 MetricValid == IsPosDef(GM) /\ 50 * Det(GM) >= G[1]*G[2]*G[3]
 AdjugateInverse == MatMul(GM, Adj(GM)) = MatScale(Det(GM), I3)
+(* ill-conditioned matrices for the QR split, as exact factors M = P.diag(d).Q with P, Q integer unimodular (their product
+   and M'M do not fit 32 bits; the harness multiplies them with unbounded integers and bounds the condition number by
+   |M|_F^3 / det M < 1e6 exactly): det M = det P . det Q . d1 d2 d3 > 0 *)
+IllValid == \A m \in IllMats : Det(m[1]) * Det(m[3]) = 1 /\ \A i \in 1..3 : m[2][i] > 0
 (* general matrices for the QR split: positive determinant, M'M positive definite *)
 MatsValid == \A M \in Mats : Det(M) > 0 /\ IsPosDef(MatMul(Transpose(M), M))
 
@@ -51,5 +55,5 @@ Terminal == Len(path) = Depth \/ rep \in {"cell", "UB"}
 Emit == Terminal =>
    PrintT("@@" \o ToJson([G |-> G, p |-> P, q |-> Qd, N |-> N, D |-> D, det |-> Det(GM), adj |-> Sym6(Adj(GM)), path |-> path]))
 EmitMats == (path = <<>> /\ c = CHOOSE x \in Pairs : TRUE) =>
-              PrintT("@@" \o ToJson([mats |-> {<<M, MatMul(Transpose(M), M), Det(M)>> : M \in Mats}]))
+              PrintT("@@" \o ToJson([mats |-> {<<M, MatMul(Transpose(M), M), Det(M)>> : M \in Mats}, ill |-> IllMats]))
 =============================================================================
